@@ -161,6 +161,7 @@ func (h *Handler) Stop() {
 			conn.Close()
 		}
 		h.connections = make(map[uint64]*ActiveConnection)
+		h.connCount.Store(0)
 		h.mu.Unlock()
 
 		h.wg.Wait()
